@@ -523,3 +523,17 @@ func RetainedSlicesStreams(seed int64) (pesFull, zoo []byte) {
 	}
 	return
 }
+
+// TinyPayloadStream: PES units whose last packet carries only 1..12, 15, 16, 17 and 20 payload bytes
+// (long adaptation-field stuffing), so that payload offsets close to the end of the packet occur.
+func TinyPayloadStream(seed int64) *Stream {
+	cc := uint8(6)
+	var ps []*ref.Pkt
+	exp := map[uint16][]ExpData{}
+	for i, t := range []int{1, 2, 3, 4, 5, 6, 7, 8, 9, 10, 11, 12, 15, 16, 17, 20} {
+		u := PESUnit(0x140, 0xe0, pesPayload(100+i, 184+t-14, seed), uint64(i), false)
+		ps = append(ps, Packetize(u, nil, &cc, false)...)
+		exp[0x140] = append(exp[0x140], u.Exp...)
+	}
+	return &Stream{Name: "tiny-last-payloads", Pkts: ps, Bytes: EncodePkts(ps), Exp: exp}
+}
